@@ -33,6 +33,8 @@ typedef struct {
 	size_t script_len, script_pos;
 	long fail_at;         /* index of the draw that fails, -1 = never */
 	int fail_sticky;      /* once failed, all later draws fail too */
+	int fail_errno;       /* errno of a failing draw (0 = EIO) */
+	long fail_count;      /* > 0: the draws fail_at .. fail_at + fail_count - 1 fail, later ones work again */
 	long draws;           /* number of getentropy calls seen */
 	uint8_t log[VS_LOG_MAX];
 	size_t log_len;
@@ -91,6 +93,8 @@ int vshim_script(const uint8_t *p, size_t n)
 }
 
 void vshim_fail_at(long idx, int sticky) { st.fail_at = idx; st.fail_sticky = sticky; }
+void vshim_fail_errno(int e) { st.fail_errno = e; }
+void vshim_fail_count(long n) { st.fail_count = n; }
 long vshim_draws(void) { return st.draws; }
 size_t vshim_log_len(void) { return st.log_len; }
 size_t vshim_log_copy(uint8_t *out, size_t cap)
@@ -129,8 +133,8 @@ int getentropy(void *buf, size_t len)
 		return 0;
 	}
 	long idx = st.draws++;
-	if (st.fail_at >= 0 && (idx == st.fail_at || (st.fail_sticky && idx > st.fail_at))) {
-		errno = EIO;
+	if (st.fail_at >= 0 && (idx == st.fail_at || (st.fail_sticky && idx > st.fail_at) || (st.fail_count > 0 && idx > st.fail_at && idx < st.fail_at + st.fail_count))) {
+		errno = st.fail_errno ? st.fail_errno : EIO;
 		return -1;
 	}
 	if (len > 256) { errno = EIO; return -1; }
